@@ -10,6 +10,7 @@ Require Import Zrs.model.SeqNorm Zrs.proofs.C02_O1.
 Require Import Zrs.proofs.C02_HufSide Zrs.proofs.C02_O2Table.
 Require Import Zrs.model.HufEnc Zrs.proofs.C13_Agree Zrs.proofs.C02_O2Huffman Zrs.proofs.C02_O2Complete.
 Require Import Permutation Zrs.proofs.C02_O2Shape Zrs.proofs.C02_O2Treeless.
+Require Import Zrs.model.BitStream Zrs.model.SeqEnc Zrs.model.FseEnc Zrs.model.FseNorm Zrs.model.WeightEnc Zrs.model.HufCounts Zrs.proofs.C13_Direct Zrs.proofs.C13_WeightModel Zrs.proofs.C02_O2Counts Zrs.proofs.C02_O2Compressor.
 Open Scope Z_scope.
 
 (** level Uncompressed: every input, every fragmentation of the source reads, every block size up to 128 KiB, every
@@ -295,6 +296,53 @@ Theorem C02_treeless_huffman_literals_meet_O2 : forall ht0 src t used,
       lit_ok t lits (huf_lit_header 3 (zlen lits) (zlen payload)) payload t.
 Proof. exact treeless_section_meets_O2. Qed.
 
+(** the rank assignment of [build_from_counts]: whatever the counts, the weights of the shape land on exactly the
+    symbols that occur *)
+Theorem C02_weights_by_rank_are_an_assignment_of_the_shape : forall counts, (length counts <= 256)%nat ->
+  let n := Z.of_nat (length (filter nzc counts)) in 2 <= n ->
+  exists sh W, shape n = ROk sh /\ weights_from_counts counts = ROk W /\ length W = length counts /\
+    Permutation (filter posw W) sh /\ Forall (fun w => 0 <= w) W /\
+    (forall i, (i < length counts)%nat -> (0 < nth i W 0 <-> nth i counts 0 <> 0)).
+Proof. exact weights_from_counts_spec. Qed.
+
+(** the Huffman-coded literals section from the literals alone: table of [build_from_data], description of the weights
+    derived back from the code lengths (direct form up to 16 written weights, FSE-compressed above; for the latter the
+    normaliser result and the < 128 bytes assertion are hypotheses), four streams *)
+Theorem C02_compressor_huffman_section_from_the_literals : forall data a b h,
+  Forall (fun s => 0 <= s <= 255) data -> In a data -> In b data -> a <> b ->
+  16 <= zlen data <= 131072 ->
+  exists codes, build_from_data data = ROk codes /\
+    let written := removelast (enc_weights codes) in
+    (1 <= length written <= 255)%nat /\
+    ((length written <= 16)%nat ->
+       let payload := direct_desc written ++ huf4_bytes (code_fn codes) data in
+       zlen payload < zlen data ->
+       exists t, lit_ok h data (huf_lit_header 2 (zlen data) (zlen payload)) payload t) /\
+    (forall al probs d, (16 < length written)%nat -> t_max_symbol (ht_fse h) = 255 ->
+       norm_counts (weight_hist written) 6 true = ROk (al, probs) -> desc_bytes al probs = Some d ->
+       exists D, fse_build_from_probabilities (ht_fse h) al probs = ROk D /\
+         let stream := stream_bytes (weight_fields (enc_of_dec D) written) in
+         let hb := zlen d + zlen stream in
+         hb < 128 ->
+         let payload := (hb :: d ++ stream) ++ huf4_bytes (code_fn codes) data in
+         zlen payload < zlen data ->
+         exists t, lit_ok h data (huf_lit_header 2 (zlen data) (zlen payload)) payload t).
+Proof. exact compressor_huffman_section. Qed.
+
+(** the premises are met: 48 literals over three bytes, direct description, payload shorter than the literals *)
+Example C02_compressor_huffman_section_example :
+  let data := flat_map (fun _ => [7; 7; 7; 9; 7; 12]) (seq 0 8) in
+  Forall (fun s => 0 <= s <= 255) data /\ In 7 data /\ In 9 data /\ 16 <= zlen data <= 131072 /\
+  exists codes, build_from_data data = ROk codes /\ (length (removelast (enc_weights codes)) <= 16)%nat /\
+    zlen (direct_desc (removelast (enc_weights codes)) ++ huf4_bytes (code_fn codes) data) < zlen data.
+Proof.
+  cbv zeta. split; [repeat constructor; lia|]. split; [vm_compute; tauto|]. split; [vm_compute; tauto|]. split; [vm_compute; split; discriminate|].
+  eexists. split; [vm_compute; reflexivity|]. split; [vm_compute; lia|]. vm_compute. reflexivity.
+Qed.
+
+
+Print Assumptions C02_compressor_huffman_section_from_the_literals.
+Print Assumptions C02_weights_by_rank_are_an_assignment_of_the_shape.
 Print Assumptions C02_treeless_huffman_literals_meet_O2.
 Print Assumptions C02_huffman_literals_meet_O2_for_every_assignment_of_the_shape.
 Print Assumptions C02_huffman_literals_meet_O2_for_every_complete_code.
